@@ -133,6 +133,7 @@ def run(tier):
             run_group(chk, bindir, group, layout, events, cases, stats)
         chk.sample({"group": group, "events": events[:3], "case": cases[0]})
     disk_probes(chk, bindir, stats)
+    stage_zones(chk, bindir, tier, stats)
     chk.cov["states"] = states
     chk.cov["transitions"] = trans
     chk.cov["traces_validated_against_impl"] = stats["evaluations"]
@@ -142,7 +143,7 @@ def run(tier):
                        "or one read-back of a stored spelling; non-trivial = the literal selects a proper non-empty subset and the engine agreed")
     chk.cov["stats"] = dict(stats)
     chk.assumptions += ["instants and spellings are class representatives (boundaries of the digit-count rule, pre-1970, day/hour boundaries, fractional seconds, UTC offsets)",
-                        "time zone UTC and Monday week start in the generated configuration",
+                        "spellings and comparisons: time zone UTC, Monday week start; PER buckets additionally in 3 (thorough: 6) named zones incl. half-hour and 45-minute offsets, both week starts",
                         "on-disk comparisons use instants within a 22-year window (see finding C16-temporal-span-cost)"]
     return chk.finish()
 
@@ -169,6 +170,86 @@ def disk_probes(chk, bindir, stats):
         if ks is None or sorted(ks) != want:
             chk.classify([fid], f"on-disk probe {name}: {q} over stored instants {vals}: got {ks if ks is not None else why}, expected {want}", {"probe": name})
         shutil.rmtree(root, ignore_errors=True)
+
+
+ZONES = [("Asia/Kolkata", "Mon"), ("America/St_Johns", "Sun"), ("Australia/Adelaide", "Mon"), ("Asia/Kathmandu", "Sun"), ("Europe/Amsterdam", "Mon"),
+         ("America/New_York", "Sun")]
+
+
+def bucket_start_tz(ts, gran, tzname, week_start):
+    """start of the calendar bucket of `ts` in the named zone (Python zoneinfo: independent of the engine's chrono-tz)"""
+    import zoneinfo
+    tz = zoneinfo.ZoneInfo(tzname)
+    d = dt.datetime.fromtimestamp(ts, tz)
+    if gran == "hour":
+        n = d.replace(minute=0, second=0, microsecond=0, tzinfo=None)
+    elif gran == "day":
+        n = d.replace(hour=0, minute=0, second=0, microsecond=0, tzinfo=None)
+    elif gran == "week":
+        wd = d.weekday() if week_start == "Mon" else (d.weekday() + 1) % 7
+        n = (d.replace(hour=0, minute=0, second=0, microsecond=0, tzinfo=None) - dt.timedelta(days=wd))
+    elif gran == "month":
+        n = d.replace(day=1, hour=0, minute=0, second=0, microsecond=0, tzinfo=None)
+    else:
+        n = d.replace(month=1, day=1, hour=0, minute=0, second=0, microsecond=0, tzinfo=None)
+    if gran == "hour":
+        # the wall-clock hour that contains the instant; keep the instant's own UTC offset (an hour repeated at the end of DST)
+        return int(ts - (d.minute * 60 + d.second))
+    return int(n.replace(tzinfo=tz).timestamp())
+
+
+def stage_zones(chk, bindir, tier, stats):
+    """PER <granularity> USING <time field> in configured time zones whose offsets are not whole hours (and two that
+    are), with both week starts: bucket keys and counts equal the independent calendar, in memory and after FLUSH."""
+    import zoneinfo
+    base = 1705343400          # 2024-01-15T18:30:00Z = local midnight in Asia/Kolkata
+    zones = ZONES[:3] if tier == "quick" else ZONES
+    for zi, (tzname, ws) in enumerate(zones):
+        tz = zoneinfo.ZoneInfo(tzname)
+        # instants around local hour / day / week / month / year starts of this zone, and around UTC hour starts
+        marks = []
+        for (y, mo, d_, h) in ((2024, 1, 15, 0), (2024, 1, 14, 0), (2024, 2, 1, 0), (2024, 1, 1, 0), (2024, 3, 1, 0), (2024, 1, 15, 13)):
+            t = int(dt.datetime(y, mo, d_, h, tzinfo=tz).timestamp())
+            marks += [t - 1, t, t + 1799, t + 1800, t + 3599]
+        marks += [base - 1800, base, base + 900, base + 2700]
+        instants = sorted(set(marks))
+        for layout in ("mem", "l0"):
+            root = core.WORK / "c16" / f"zone{zi}-{layout}"
+            if root.exists():
+                shutil.rmtree(root)
+            root.mkdir(parents=True)
+            cfg = {"root": str(root / "db"), "fill_factor": 100000, "event_per_zone": 4, "shards": 2, "k": 2, "timezone": tzname, "week_start": ws}
+            steps = [{"op": "cmd", "text": 'DEFINE ev FIELDS { k: "int", d: "datetime" }', "tag": ["define"]}]
+            for k, t in enumerate(instants):
+                steps.append({"op": "cmd", "text": f'STORE ev FOR c{k % 5} PAYLOAD {{"k": {k}, "d": {t}}}', "tag": ["st", k]})
+            if layout == "l0":
+                steps.append({"op": "cmd", "text": "FLUSH", "tag": ["flush"]})
+            for g in ("hour", "day", "week", "month", "year"):
+                steps.append({"op": "cmd", "text": f"QUERY ev COUNT PER {g} USING d", "tag": ["per", g]})
+            rc, obs, err = core.run_vdrive(bindir, {"config": cfg, "out": str(root / "o.ndjson"), "steps": steps}, timeout=300)
+            rep = {"timezone": tzname, "week_start": ws, "layout": layout, "instants": instants}
+            if rc != 0:
+                chk.violation(f"time-zone stage ({tzname}, {layout}): engine ended with {rc}: {err[-200:]}", rep)
+                continue
+            for o in obs:
+                t_ = o.get("tag")
+                if not (isinstance(t_, list) and t_[0] == "per"):
+                    continue
+                g = t_[1]
+                stats["zone_bucket_queries"] += 1
+                if o.get("outcome") != "response" or o.get("status") != 200:
+                    chk.violation(f"QUERY ev COUNT PER {g} USING d [{tzname}, week starts {ws}, {layout}] failed: {(o.get('outcome'), o.get('status'), o.get('message'))}", rep)
+                    continue
+                cols = o.get("columns", [])
+                got = Counter({row[cols.index("bucket")]: row[cols.index("count")] for row in (o.get("rows") or [])})
+                want = Counter(bucket_start_tz(t, g, tzname, ws) for t in instants)
+                if got != want:
+                    diff = {b: (got.get(b), want.get(b)) for b in set(got) | set(want) if got.get(b) != want.get(b)}
+                    chk.violation(f"PER {g} USING d in time zone {tzname} (week starts {ws}) [{layout}]: buckets (engine, calendar) differ: "
+                                  f"{dict(sorted(diff.items())[:5])}", {**rep, "gran": g})
+                else:
+                    stats["zone_bucket_ok"] += 1
+            shutil.rmtree(root, ignore_errors=True)
 
 
 def run_group(chk, bindir, group, layout, events, cases, stats):
